@@ -15,8 +15,9 @@ AsMatrix(t) ==
   CASE t.k = "id" -> IdentityMat(SizeS(t.s))                                   \* jnp.identity(in_size)
     [] t.k = "hom" -> MatScale(t.p[1], t.p[2], IdentityMat(SizeS(t.s)))        \* value * identity
     [] t.k = "diag" -> DiagMat(ConcatAll([i \in 1..NLeaves(t.s) |-> t.p]))     \* diag(concatenated values)
+    [] t.k = "diagq" -> DiagMatOver(ConcatAll([i \in 1..NLeaves(t.s) |-> Tail(t.p)]), t.p[1])
     [] t.k = "dinv" ->                                                         \* same, with the pseudo-inverse values
-         LET one == DiagPinv(t.ch[1].p) IN
+         LET one == IF t.ch[1].k = "diagq" THEN DiagPinvQ(Tail(t.ch[1].p), t.ch[1].p[1]) ELSE DiagPinv(t.ch[1].p) IN
          BlockDiag([i \in 1..NLeaves(InS(t)) |-> one])
     [] t.k = "toep" -> ToeplitzMat(t.s.sh[1], t.p)                             \* dense_symmetric_band_toeplitz
     [] t.k \in {"reshape", "ravel"} -> IdentityMat(SizeS(t.s))                 \* jnp.eye(in_size)
@@ -55,10 +56,13 @@ SolverFree(t) == t.k # "inv" /\ \A i \in 1..Len(t.ch) : SolverFree(t.ch[i])
 \* no diagonal operator with a zero entry anywhere inside (then closed-form inverses are true inverses)
 RECURSIVE NoZeroDiag(_)
 NoZeroDiag(t) == /\ (t.k = "diag" => \A i \in 1..Len(t.p) : t.p[i] # 0)
+                 /\ (t.k = "diagq" => \A i \in 2..Len(t.p) : t.p[i] # 0)
                  /\ \A i \in 1..Len(t.ch) : NoZeroDiag(t.ch[i])
 \* small enough for the exact determinant / inverse by expansion
 Small(M) == M.r <= 4 /\ M.c <= 4
-SmallSPD(M) == M.r = M.c /\ M.r <= 4 /\ IsPosDef(M)
+\* (determinants are only expanded when they stay far inside TLC's 32-bit integers)
+BoundedEntries(M) == M.d < 5000 /\ \A i \in 1..M.r, j \in 1..M.c : Abs(M.e[i][j]) < 5000
+SmallSPD(M) == M.r = M.c /\ M.r <= 4 /\ BoundedEntries(M) /\ IsPosDef(M)
 
 \* Moore-Penrose identities
 IsPinv(A, X) ==
